@@ -144,6 +144,40 @@ func (in *inliner) factsOf(decl *ast.FuncDecl) *calleeFacts {
 	return cf
 }
 
+// assignedIn: is obj written (assigned, inc/dec'd, address taken, used as range variable) inside decl's body?
+func (in *inliner) assignedIn(decl *ast.FuncDecl, obj types.Object) bool {
+	info := in.info
+	found := false
+	is := func(e ast.Expr) bool {
+		id, ok := ast.Unparen(e).(*ast.Ident)
+		return ok && (info.Uses[id] == obj || info.Defs[id] == obj)
+	}
+	ast.Inspect(decl.Body, func(n ast.Node) bool {
+		switch x := n.(type) {
+		case *ast.AssignStmt:
+			for _, l := range x.Lhs {
+				if is(l) {
+					found = true
+				}
+			}
+		case *ast.IncDecStmt:
+			if is(x.X) {
+				found = true
+			}
+		case *ast.UnaryExpr:
+			if x.Op == token.AND && is(x.X) {
+				found = true
+			}
+		case *ast.RangeStmt:
+			if (x.Key != nil && is(x.Key)) || (x.Value != nil && is(x.Value)) {
+				found = true
+			}
+		}
+		return !found
+	})
+	return found
+}
+
 func copyFacts(m map[types.Object]absVal) map[types.Object]absVal {
 	out := make(map[types.Object]absVal, len(m)+2)
 	for k, v := range m {
